@@ -341,6 +341,12 @@ func ruleShutdownDrains(c *Ctx) {
 					return true
 				}
 			}
+			// atomic.StoreUint32(&haveWALWriter, 0)
+			if strings.HasPrefix(CalleeName(s.Info, x), "sync/atomic.Store") && len(x.Args) == 2 && mentionsObjKey(s.Info, x.Args[0], "executor.haveWALWriter") {
+				if v, ok := constInt(s.Info, x.Args[1]); ok && v == 0 {
+					return true
+				}
+			}
 		}
 		return false
 	}
@@ -366,6 +372,11 @@ func ruleShutdownWaits(c *Ctx) {
 		case *ast.CallExpr:
 			if sel, ok := unparen(x.Fun).(*ast.SelectorExpr); ok && sel.Sel.Name == "Store" && mentionsField(s.Info, sel.X, "executor.WALFileType.shutdownPending") {
 				return true
+			}
+			if strings.HasPrefix(CalleeName(s.Info, x), "sync/atomic.Store") && len(x.Args) == 2 && mentionsField(s.Info, x.Args[0], "executor.WALFileType.shutdownPending") {
+				if v, ok := constInt(s.Info, x.Args[1]); ok && v != 0 {
+					return true
+				}
 			}
 		}
 		return false
